@@ -264,16 +264,30 @@ def run(repo, rep, tier):
                         'pull-call', OPS, inner.lineno,
                         'pull loop does not use %s(pull_result.context, ...)'
                         % pname)
-        # pull loop condition
-        whiles = [n for n in walk_no_nested(_B(inner.body))
-                  if isinstance(n, ast.While)]
-        ok = bool(whiles) and all(eqsrc(w.test, 'not pull_result.eos')
-                                  for w in whiles)
-        r5.ob(ok, name + ':loop-cond')
-        if not ok:
-            rep.finding(r5, f.qualname, 'while not pull_result.eos',
-                        'loop-cond', OPS, inner.lineno,
-                        'pull loop is not `while not pull_result.eos`')
+        # pull protocol (typestate on the CFG): every result delivered, a
+        # Pull only after eos false, normal end only after eos true
+        from ..pullproto import check as proto_check
+        gen = f.node
+        for x in ast.walk(f.node):
+            if isinstance(x, (ast.FunctionDef, ast.AsyncFunctionDef)) and \
+                    any(y is inner for y in ast.walk(x)):
+                gen = x            # innermost function holding the loop
+        probs, pstats = proto_check(gen, 'pull_result')
+        ok = not probs and pstats['pull_sites'] >= 1 and \
+            pstats['end_sites'] >= 1
+        r5.ob(ok, name + ':pull-protocol', pstats)
+        if not probs and not ok:
+            rep.finding(r5, f.qualname, 'pull loop', 'loop-cond', OPS,
+                        inner.lineno, 'no Pull call / no normal end of the '
+                        'pull branch reachable from the Open result (%s)'
+                        % pstats)
+        seenk = set()
+        for kind, node, text in probs:
+            if kind in seenk:
+                continue
+            seenk.add(kind)
+            rep.finding(r5, f.qualname, 'pull loop: ' + kind, 'loop-cond',
+                        OPS, getattr(node, 'lineno', inner.lineno), text)
         # flag set True only after open
         sets_true = [(i, s) for i, s in enumerate(inner.body)
                      if isinstance(s, ast.Assign) and
@@ -290,22 +304,59 @@ def run(repo, rep, tier):
         ok = len(hs) == 1 and norm(hs[0].type) == 'CIMError' and \
             hs[0].name is not None
         hshape = False
+        hwhy = ''
         if ok:
             h = hs[0]
             ev = h.name
-            if len(h.body) == 1 and isinstance(h.body[0], ast.If):
-                hi = h.body[0]
-                want = '%s is None and %s.status_code in ' \
-                    '(CIM_ERR_NOT_SUPPORTED, CIM_ERR_FAILED)' % (flag, ev)
-                alt = '%s is None and %s.status_code in ' \
-                    '(CIM_ERR_FAILED, CIM_ERR_NOT_SUPPORTED)' % (flag, ev)
-                if (eqsrc(hi.test, want) or eqsrc(hi.test, alt)) and \
-                        len(hi.body) == 1 and \
-                        norm(hi.body[0]) == flag + ' = False' and \
-                        len(hi.orelse) == 1 and \
-                        isinstance(hi.orelse[0], ast.Raise) and \
-                        hi.orelse[0].exc is None:
-                    hshape = True
+            from ..paths import block_paths
+            from ..relfacts import split as fsplit, atom as fatom
+            hpaths = block_paths(h.body, f)
+            if hpaths is None:
+                raise AnalysisError('%s: handler has too many paths' % name)
+            want = {(flag, 'none', True),
+                    (ev + '.status_code',
+                     'in:CIM_ERR_FAILED,CIM_ERR_NOT_SUPPORTED', True)}
+            good = 0
+            hshape = True
+            for hp in hpaths:
+                atoms = set()
+                for t, pol in hp.facts:
+                    for t2, p2 in fsplit(t, pol):
+                        a_ = None
+                        if isinstance(t2, ast.Compare) and \
+                                len(t2.ops) == 1 and isinstance(
+                                    t2.ops[0], (ast.In, ast.NotIn)) and \
+                                isinstance(t2.comparators[0],
+                                           (ast.Tuple, ast.List, ast.Set)):
+                            els = sorted(norm(e) for e in
+                                         t2.comparators[0].elts)
+                            a_ = (norm(t2.left), 'in:' + ','.join(els),
+                                  p2 != isinstance(t2.ops[0], ast.NotIn))
+                        else:
+                            a_ = fatom(t2, p2)
+                        if a_ is None:
+                            a_ = (norm(t2, 80), '?', p2)
+                        atoms.add(a_)
+                sets_false = any(isinstance(e, ast.Assign) and
+                                 norm(e) == flag + ' = False'
+                                 for e in hp.effects)
+                other = [e for e in hp.effects
+                         if isinstance(e, (ast.Assign, ast.AugAssign)) and
+                         norm(e) != flag + ' = False']
+                if atoms == want and sets_false and not other:
+                    good += 1
+                else:
+                    hshape = False
+                    hwhy = 'a path that does not re-raise holds under [%s]%s' \
+                        % (', '.join('%s%s %s' % ('' if p_ else 'not ', s_,
+                                                  k_) for s_, k_, p_ in
+                                     sorted(atoms)),
+                           '' if sets_false else ' and does not set the '
+                           'flag to False')
+            if good < 1:
+                hshape = False
+                hwhy = hwhy or 'no path downgrades to the traditional ' \
+                    'operation'
         r3.ob(ok and hshape, name + ':handler',
               {'iter': name,
                'handler': norm(hs[0].body[0], 300) if hs and hs[0].body
@@ -315,7 +366,8 @@ def run(repo, rep, tier):
                         OPS, inner.lineno,
                         'the handler does not downgrade exactly when the '
                         'flag is None and status is NOT_SUPPORTED/FAILED, '
-                        're-raising otherwise')
+                        're-raising otherwise' + (' (%s)' % hwhy if hwhy
+                                                  else ''))
         # ---- fallback section -------------------------------------------
         idx = body.index(pull_if)
         tail = body[idx + 1:]
